@@ -258,6 +258,21 @@ var SynCorpus = []*SynGrammar{
 			P("K", Lit("k")), P("K", Lit("k"), Lit("k")),
 			P("O", Lit("q")), P("O"),
 		}},
+	{Name: "G21", Why: "a nonterminal reached in two left contexts with nested look-ahead sets, the larger context first (a later state is a strict subset of an earlier one)",
+		Lex: stdLex,
+		Prods: []Prod{
+			P("S", NT("A"), Lit("x")), P("S", NT("A"), Lit("y")), P("S", Lit("b"), NT("A"), Lit("x")),
+			P("A", Lit("a")),
+		}},
+	{Name: "G22", Why: "left-recursive list whose element ends in a nullable nonterminal: the same item occurs with two look-aheads and a nullable rest",
+		Lex: stdLex,
+		Prods: []Prod{
+			P("S", NT("L")),
+			P("L", NT("L"), NT("A")), P("L", NT("A")),
+			P("A", NT("B"), NT("O")),
+			P("B", Lit("b")),
+			P("O", Lit("o")), P("O"),
+		}},
 	{Name: "G08", Why: "empty between terminals; mutual recursion",
 		Lex: stdLex,
 		Prods: []Prod{
